@@ -116,7 +116,7 @@ def run(ctx, replay_jobs=None):
         pay.append(dict(j, mode="run", dump_interval=None, dump_name=None))
     res = C.run_driver_parallel(ctx, "c19_dump", pay, timeout=1500)
     fails, dterms, iterms, samples, f8 = [], [], [], [], []
-    n_dumps = n_legs_cmp = 0
+    n_dumps = n_legs_cmp = n_probe_cmp = 0
     resume_pay, resume_ref = [], []
     for i, j in enumerate(js):
         w, wo = res[2 * i], res[2 * i + 1]
@@ -202,6 +202,29 @@ def run(ctx, replay_jobs=None):
             fails.append({"job": j, "dump_leg": d["leg"], "msg": "resume raised %s: %s" % (r["error"]["exc"],
                                                                                             r["error"]["msg"])})
             continue
+        # "same settings": the restored handlers compute with the same numbers (their potentials give bit-identical
+        # derivatives at fixed probe points) and have the same parameters as those of the original run
+        hw, hr = (w.get("meta") or {}).get("handlers") or [], (r.get("meta") or {}).get("handlers") or []
+        if len(hw) != len(hr):
+            fails.append({"job": j, "dump_leg": d["leg"], "msg": "resumed run has %d event handlers, the original %d"
+                          % (len(hr), len(hw))})
+            continue
+        def norm(h, ref):
+            # probe points at which the ORIGINAL handler's helper object could not be evaluated with the generic
+            # signature (cell bounding potentials, not yet initialised objects) are not compared
+            h = dict(h)
+            pr, rf = h.get("potential_probes") or {}, ref.get("potential_probes") or {}
+            h["potential_probes"] = {k: [v for v, o in zip(pr.get(k) or [], rf[k]) if not isinstance(o, str)]
+                                     for k in rf}
+            return h
+        bad_h = [(x["class"], k) for x, y in ((norm(x0, x0), norm(y0, x0)) for x0, y0 in zip(hw, hr))
+                 for k in sorted(set(x) | set(y)) if k != "initial_event_time" and x.get(k) != y.get(k)]
+        if bad_h:
+            fails.append({"job": j, "dump_leg": d["leg"], "msg": "restored event handler differs from the original one: "
+                          "%s.%s (a potential evaluated at fixed probe points / a parameter)" % bad_h[0]})
+            continue
+        n_probe_cmp += sum(1 for x in hw for v in (x.get("potential_probes") or {}).values() for o in v
+                           if not isinstance(o, str))
         a = [l for l in w["legs"][d["leg"] + 1:] if complete(l)]
         b = [l for l in r["legs"] if complete(l)]
         m = min(len(a), len(b))
@@ -226,6 +249,8 @@ def run(ctx, replay_jobs=None):
             os.remove(d["file"])
         except OSError:
             pass
+    ctx.notes.append("restored handlers: %d potential derivatives at fixed probe points compared bit for bit with the "
+                     "original run's handlers (plus all recorded handler parameters)" % n_probe_cmp)
     mism = 0
     for name, terms, checker, ty in (("c19_resume", dterms, "check_dcase", "dcase"),
                                      ("c19_invisible", iterms, "check_icase", "icase")):
